@@ -187,6 +187,36 @@ class Flow:
             self.fn = fn
         self.qual = fn.qual
         self.file = fn.file
+        # helpers whose bodies were spliced in: the rules depend on them as well
+        self.spliced: list[str] = []
+        if normalise:
+            def helper_calls(root: ast.AST) -> dict[str, int]:
+                out: dict[str, int] = {}
+                for c in ast.walk(root):
+                    if isinstance(c, ast.Call):
+                        f = c.func
+                        key = None
+                        if isinstance(f, ast.Name) and f.id.startswith("_"):
+                            key = f.id
+                        elif isinstance(f, ast.Attribute) and isinstance(f.value, ast.Name) \
+                                and f.attr.startswith("_") and not f.attr.startswith("__"):
+                            key = f"{f.value.id}.{f.attr}"
+                        if key:
+                            out[key] = out.get(key, 0) + 1
+                return out
+
+            before, after = helper_calls(fn.node), helper_calls(self.fn.node)
+            for key, cnt in before.items():
+                if after.get(key, 0) >= cnt:
+                    continue
+                name = key.split(".")[-1]
+                target = None
+                if "." in key and fn.cls is not None:
+                    target = prog.resolve_method(fn.cls, name)
+                elif "." not in key:
+                    target = fn.module.functions.get(name)
+                if target is not None and target.qual not in self.spliced:
+                    self.spliced.append(target.qual)
         self.cfg = CFG(self.fn.node, fn.file)
         self._expanded: dict[tuple[int, int], ast.AST] = {}
         self._pinned: set[str] = set()
